@@ -32,6 +32,16 @@ Semantics (DESIGN.md appendix A, operator docstrings in transform.py):
 Build-time validity: select with keyword inputs; assign without key; an
 assign key that is already a current output key; SELF together with any other
 current output key; fn_batch_size without batch_size; negative batch sizes.
+
+Falsy but valid key specs.  A key is what it addresses, whatever its truth
+value in Python: the index 0 (`I(0)`), the mapping key 0 and the empty path
+`()` (= the root, like SELF) are keys like any other, and the empty list `[]`
+(the library's empty tuple of keys) means "no key": a callable / predicate /
+sink then gets no argument, an apply has no output key (any output is an error,
+the empty tuple `()` of outputs leaves no record).  The only documented
+"absent" spellings are: select's output keys None / `()` (= the input keys) and
+assign's keys `()` (= no key given, rejected).  `spec_falsy` tells which specs
+Python calls falsy; it is used by the *deviations* only.
 """
 from __future__ import annotations
 
@@ -46,9 +56,24 @@ class RunError(Exception):
 
 # ---- key spec helpers --------------------------------------------------------
 
-def in_keys(op):
+def spec_falsy(spec):
+  """Is the library spelling of this key spec falsy in Python?  ([] = the empty
+  tuple of keys, {} , the empty path, a one-step path whose step is 0 / I(0))."""
+  if isinstance(spec, (list, dict)):
+    return not spec
+  if spec is SELF or spec is SKIP or isinstance(spec, Lit):
+    return False
+  path = ref._norm(spec)  # pylint: disable=protected-access
+  return not path or (len(path) == 1 and not isinstance(path[0], str) and
+                      not path[0])
+
+
+def in_keys(op, dev=frozenset()):
   """-> (argument names or None, [keys])."""
   inp = op.get('inp', SELF)
+  if ('falsy-in-is-self' in dev and op['kind'] != 'select' and
+      spec_falsy(inp)):
+    inp = SELF
   if isinstance(inp, dict):
     return list(inp.keys()), list(inp.values())
   if isinstance(inp, list):
@@ -56,15 +81,18 @@ def in_keys(op):
   return None, [inp]
 
 
-def out_elems(op):
+def out_elems(op, dev=frozenset()):
   """-> [key | dict] the normalised output key elements."""
   kind = op['kind']
   if kind == 'select':
     out = op.get('out')
-    if out is None or out == [] or out == ():
+    if out is None or out == [] or out == () or (
+        'select-falsy-out-is-in' in dev and spec_falsy(out)):
       out = op.get('inp', SELF)
   elif kind == 'assign':
     out = op.get('out', [])
+    if 'assign-falsy-key-is-none' in dev and spec_falsy(out):
+      out = []
   else:
     out = op.get('out', SELF)
   if isinstance(out, list):
@@ -100,6 +128,8 @@ def validate(program, variant=frozenset()):
     'select-adds'  select adds its keys instead of replacing the set
     'sink-self'    sink adds SELF to the set
     'keep-skip'    SKIP stays in the set
+    'select-falsy-out-is-in'    falsy output keys of select = not given
+    'assign-falsy-key-is-none'  falsy assign keys = not given
   """
   keep_skip = 'keep-skip' in variant
   cur, tracked = [], []
@@ -116,14 +146,14 @@ def validate(program, variant=frozenset()):
     if kind == 'select':
       if isinstance(op.get('inp', SELF), dict):
         return False, f'op{i}:select-with-kwargs', tracked
-      new = flat_names(out_elems(op), keep_skip)
+      new = flat_names(out_elems(op, variant), keep_skip)
       cur = _union(cur, new) if 'select-adds' in variant else new
     elif kind == 'apply':
-      cur = flat_names(out_elems(op), keep_skip)
+      cur = flat_names(out_elems(op, variant), keep_skip)
     elif kind == 'batch':
       cur = list(cur) if cur else [SELF]
     elif kind == 'assign':
-      elems = out_elems(op)
+      elems = out_elems(op, variant)
       if not elems:
         return False, f'op{i}:assign-without-key', tracked
       new = flat_names(elems, keep_skip)
@@ -161,8 +191,8 @@ class SinkLog:
     self.closed = 0
 
 
-def _inputs(op, record):
-  names, keys = in_keys(op)
+def _inputs(op, record, dev=frozenset()):
+  names, keys = in_keys(op, dev)
   try:
     vals = [ref.get(record, k) for k in keys]
   except ref.RefError as e:
@@ -239,7 +269,7 @@ class _Stage:
       if not op['k']:
         return self._emit_batch()
       return []
-    names, vals = _inputs(op, record)
+    names, vals = _inputs(op, record, self.dev)
     if kind == 'sink':
       if names is not None and 'sink-no-kwargs' in self.dev:
         raise RunError('deviation: sink rejects keyword inputs')
@@ -257,7 +287,7 @@ class _Stage:
         raise RunError('deviation: filter without current output keys')
       return [record] if out else []
     base = record if kind == 'assign' else MISSING
-    return [_route_outputs(base, out_elems(op), out, self.dev)]
+    return [_route_outputs(base, out_elems(op, self.dev), out, self.dev)]
 
   def _emit_batch(self):
     cols, self.columns = self.columns, None
@@ -286,7 +316,8 @@ class Result:
 
 DEVIATIONS = ('select-adds', 'sink-self', 'keep-skip',
               'filter-needs-output-keys', 'skip-materialises',
-              'sink-no-kwargs')
+              'sink-no-kwargs', 'falsy-in-is-self', 'select-falsy-out-is-in',
+              'assign-falsy-key-is-none')
 
 
 def run(program, stream, dev=frozenset()):
